@@ -984,7 +984,13 @@ func setterContract(c *Ctx, rule string) {
 				}
 				if fa, ok := e.Addr.(*FieldAddrV); ok && fa.Name == sd.field && ap(fa.X) == "SP" {
 					own = append(own, ap(e.Val))
-					if arg == nil || e.Val.Key() != arg.Key() {
+					same := arg != nil && e.Val.Key() == arg.Key()
+					if !same && arg != nil && isNilConst(e.Val) {
+						// `if ks == nil { field = nil }`: the nil literal on a path where the argument is nil
+						eq, known := t.eqFact(arg, nilOf(nil))
+						same = known && eq
+					}
+					if !same {
 						other = append(other, "SP."+sd.field+" = "+ap(e.Val))
 					}
 					continue
